@@ -46,6 +46,12 @@ DEV = {"DevFa": ("C08", "ResumeSafe:cont-resume-compound-since",
                  "recent_sequences below unused_sequences[0], the competitor's sequence stays skipped until it is abandoned")}
 
 
+# once a deviation is repaired its directed family must pass; if the defect returns, that family reports the SAME class key again
+REGRESSION_FAMILY = {"dir-Fc": ("Fc", "DevFc", {"QuietAccounted", "NoStall"}),
+                     "dir-Fa": ("Fa", "DevFa", {"ResumeSafe", "ContDelivers", "NoLostChange"}),
+                     "dir-Fb": ("Fb", "DevFb", {"ResumeSafe", "NoLostChange"})}
+
+
 def variant_env(intended=False):
     """environment selecting as-coded (default) or intended switches for the model / trace modules"""
     fa = AS_CODED["Fa"] and not intended
@@ -178,7 +184,7 @@ def directed():
     # F-c: CAS-retried write, competitor's mutation de-duplicated
     fams.append({"cfg": c(conflicts=True, mn=1, clients=["os"]), "fam": "dir-Fc",
                  "steps": [S("Reserve", "w1", "b"), S("Reserve", "w2", "b"), S("Cas", "w2", "b"), S("Cas", "w1", "b"), S("Cas", "w1", "b"),
-                           S("Coalesce", d="b", seq=3), S("Deliver", d="b", seq=4), S("Tick"), S("Request")]})
+                           S("Coalesce", d="b", seq=3), S("Deliver", d="b", seq=4)]})   # the closing steps sweep and ask: with the override back, 3 stays skipped (DevFc)
     # shapes (must pass on the unchanged tree): late arrival seen by a waiting continuous feed and by the resume loop
     fams.append({"cfg": c(), "fam": "dir-late", "steps": two + [S("Connect"), S("Deliver", d="b", seq=3), S("Request"), S("Iter"), S("Deliver", d="a", seq=2), S("Request"), S("Iter")]})
     # a failed write, a 409 and a dead reservation between two documents
@@ -404,10 +410,16 @@ def judge_replay(ctx, rep, behs, rows):
     bad = set()
     dev_hits = {}
     for bi in sorted(found):
-        names = found[bi]
+        names = dict(found[bi])
+        reg = REGRESSION_FAMILY.get(behs[bi].get("fam"))
+        if reg and not AS_CODED[reg[0]] and any(n in reg[2] for n in names):
+            # the repaired defect is back: same class key as the (now `fixed`) finding
+            for n in [x for x in names if x in reg[2]]:
+                del names[n]
+            dev_hits.setdefault(reg[1], []).append(bi)
         news = [n for n in names if n not in DEV]
         for n in names:
-            if n in DEV:
+            if n in DEV and bi not in dev_hits.get(n, []):
                 dev_hits.setdefault(n, []).append(bi)
         if news:
             bad.add(bi)
